@@ -343,8 +343,8 @@ def many_scopes(c):
 def explore(c, n, big):
     many_scopes(c)
     for k in range(n):
-        # a 250-scope PSBT costs ~85 s of driver time in view.all: six of them in the thorough tier, not thirty
-        g = gen_psbt.gen_psbt(c.rng, big=(big and k % 100 == 3))
+        # a 250-scope PSBT costs ~85 s of driver time in view.all: three of them in the thorough tier (many_scopes covers large counts on embit alone)
+        g = gen_psbt.gen_psbt(c.rng, big=(big and k % 200 == 3))
         c.tally("psbt:v%d/in%d/out%d" % (g["version"], min(len(g["tx"].vin), 5), min(len(g["tx"].vout), 5)))
         check_bytes(c, "valid", g["bytes"], True)
         check_write(c, g)
